@@ -51,7 +51,7 @@ impl FilterChain {
     ensures
         r matches Ok(v) ==> self.denotes(runtime) == Some(v.vid()),          // [C13:chain_is_left_to_right_composition]
         r is Err ==> self.denotes(runtime) is None,                          // [C13:chain_fails_iff_a_stage_fails]
-//@ edit <<for filter in &self.filters>> => <<for filter in it: &self.filters>> why: names Verus' ghost iterator so that the invariant can refer to the position
+//@ editre <<for (\w+) in &self\.filters>> => <<for \1 in it: &self.filters>> why: names Verus' ghost iterator so that the invariant can refer to the position
 //@ loop 0 kind=for
     invariant
         0 <= it.index@ <= self.filters@.len(),
